@@ -244,8 +244,16 @@ def mono_untouched(ctx):
       continue
     conds = [U.expand_locals(fn, t, at=st) for t, p in U.path_conditions(fn, st) if p]
     texts = [norm_text(t) for t in conds]
-    dim_known = any('.ndim' in t or 'len(' in t and '.shape)' in t for t in texts)
-    shape_test = [t for t in texts if '.shape[' in t]
+    # the number of dimensions is established by a test of .ndim / len(.shape), or by comparing the shape - whole or a *slice* of
+    # it - with a tuple (`y.shape[1:] == (2,)` holds only for a two-dimensional array)
+    def fixes_rank(t):
+      return any(isinstance(c, ast.Compare) and len(c.ops) == 1 and isinstance(c.ops[0], ast.Eq) and any(
+          isinstance(b, ast.Tuple) and ((isinstance(a, ast.Attribute) and a.attr == 'shape') or
+                                        (isinstance(a, ast.Subscript) and isinstance(a.slice, ast.Slice) and isinstance(a.value, ast.Attribute) and a.value.attr == 'shape'))
+          for a, b in ((c.left, c.comparators[0]), (c.comparators[0], c.left))) for c in ast.walk(t))
+    dim_known = any('.ndim' in t or 'len(' in t and '.shape)' in t for t in texts) or any(fixes_rank(t) for t in conds)
+    shape_test = [norm_text(t) for t in conds if any(isinstance(s_, ast.Subscript) and isinstance(s_.value, ast.Attribute) and s_.value.attr == 'shape' and
+                                                     not isinstance(s_.slice, ast.Slice) for s_ in ast.walk(t))]
     if dim_known or not shape_test:
       if dim_known:
         ctx.ob('WAV/mono-untouched', rd, st, True, 'channels are folded only after the array is known to be two-dimensional', construct='channel fold requires ndim == 2', definite=True)
